@@ -186,7 +186,9 @@ def search_c01(seed, tier, only_modules=None, limit=5):
         if tier == "quick" and dim == 4:
             pairs = r.sample(pairs, 40)
         for s1, s2 in pairs:
-            for p1, p2 in zip(pts[:2], pts[1:3]):
+            pp = list(zip(pts[:2], pts[1:3])) if dim == 4 else \
+                [(pts[i], pts[i + 1]) if i % 2 == 0 else (pts[i + 1], pts[i]) for i in range(len(pts) - 1)]
+            for p1, p2 in pp:
                 for m in BINARY[dim]:
                     if m == "subtract" and s1[-1] == "tau" and s2[-1] == "tau":
                         continue
